@@ -45,7 +45,7 @@ def build(sidecar_names=None, repo=None):
 
 def generate(E, qual):
     """returns (FuncVerifier, obligations) for the function `qual`"""
-    c = E.find_contract(qual)
+    c = E.sc.impl_contracts.get(qual) or E.find_contract(qual)
     if c is None:
         # an override verified against the family contract of an ancestor (behavioural subtyping)
         m, cls, fn, enclosing = E.fe.find_function(qual)
